@@ -506,4 +506,11 @@ theorem lookup_setBind_self (b : Binds) (k : String) (l : Leaf) : (setBind b k l
     exact this b l0 h
 
 
+theorem filterMap_congr_mem {α β} (f g : α → Option β) : ∀ (l : List α), (∀ x ∈ l, f x = g x) → l.filterMap f = l.filterMap g
+  | [], _ => rfl
+  | x :: l, h => by
+      have hx := h x (by simp)
+      have ih := filterMap_congr_mem f g l (fun y hy => h y (List.mem_cons_of_mem _ hy))
+      simp only [List.filterMap_cons, hx, ih]
+
 end TdVerif.C07
